@@ -2258,6 +2258,45 @@ C03.obligations = list(C03.obligations) + ["Proofs.LinkWireEndpoint::" + n for n
 C03.coq_targets = list(C03.coq_targets) + ["Proofs/LinkWireEndpoint.vo"]
 
 
+# ---------------------------------------------------------------------------------------------
+# Second tie for the body / Content-Length clause (appended; harness/gen_ast.py, coq/Base/PyMini.v,
+# Proofs/AstSendEquiv.v): the SOURCE TEXT of JsonRPCProtocol._send_data and of StdoutWriter.write is translated on
+# every run by the fail-closed AST translator into a deep embedding, and the kernel re-checks that the
+# writer.write calls _send_data makes and the value it returns are Model/Wire.v's send_data (header only with
+# _include_headers, Content-Length = len(body), ONE write of the utf-8 encoding, a report instead of a write when
+# json.dumps or the encoding raises) and that StdoutWriter.write is write-then-flush.  json.dumps (with the
+# default= hook), format(int) and inspect.isawaitable are oracles of those theorems.
+# Imported late ("Module::theorem") so that a broken translator tie does not hide the other obligations.
+import gen_ast as _gen_ast
+
+C03.obligations = list(C03.obligations) + ["Proofs.AstSendEquiv::" + n for n in (
+    "ast_send_data_equiv", "ast_stdout_writer_write_equiv", "ast_send_data_example")]
+C03.coq_targets = list(C03.coq_targets) + ["Proofs/AstSendEquiv.vo"]
+C03.trusted_base = list(C03.trusted_base) + [
+    "translator tie: harness/gen_ast.py (Python ast -> PyMini, fail-closed) and the PyMini semantics "
+    "coq/Base/PyMini.v (hand-written meaning of the Python subset: try / except .. as, f-strings, str + str, "
+    "str.encode('utf-8') strict, truth values; calls on self.writer / self._server / asyncio.ensure_future are "
+    "recorded and return normally); json.dumps, format(int), inspect.isawaitable are oracles of those theorems"]
+_prev_regenerate_ast = getattr(C03, "regenerate", None)
+
+
+def _regenerate_ast(self, chk):
+    try:
+        if _prev_regenerate_ast is not None:
+            _prev_regenerate_ast(self, chk)
+    finally:
+        core.coq_make(["Props/C03.vo", "Extract/ExtractC03.vo"])     # the differential side first
+        with core._Lock("coq"):                                      # coq/Gen is shared
+            try:
+                _gen_ast.gen_send()
+                _gen_ast.gen_writer()
+            finally:
+                core._coq_make(["Proofs/AstSendEquiv.vo"])
+
+
+C03.regenerate = _regenerate_ast
+
+
 if __name__ == "__main__":
     import sys
     if "--multi-helper" in sys.argv:
